@@ -129,7 +129,7 @@ def run(chk):
             chk.count("programs_" + how)
             if len(chk.coverage["samples"]) < 3 and level == 0:
                 chk.sample({"program": p.text[:500], "scheme": how})
-            csemx.check_compiled(chk, m, p.text, p, r, "c17", nstates, seed=hash(p.text) & 0xFFFFFF, level=level,
+            csemx.check_compiled(chk, m, p.text, p, r, "c17", nstates, seed=stable_hash(p.text), level=level,
                                  sig_fn=lambda kind: "split-port-" + kind, extra={"feature": "atari2600", "defines": defs},
                                  compile_fn=lambda t, lv=level, d=defs: h.compile(t, lv, defines=d))
     # the known finding's exemplar
